@@ -39,7 +39,7 @@ SPEC = {
                           ("G(6) x A2, m <= 12", [["--n", 6, "--alpha", "A2", "--max-m", 12]]),
                           ("G(7) x U", [["--n", 7, "--alpha", "U"]])]),
     "C16": dict(comp="forest",
-                rule="every labelled graph of G(n), and for n <= 4 (thorough: n <= 5 with m <= 7) every edge insertion order; oracle = mutually inverse bijections onto 0..m-1, "
+                rule="every labelled graph of G(n), and for n <= 4 (thorough: n <= 5 with m <= 7) every edge insertion order; each index is judged as constructed, copy-constructed, assigned over another graph's index and self-assigned; oracle = mutually inverse bijections onto 0..m-1, "
                      "component count and dimension by union-find, is_on_forest iff index >= dimension, forest edges acyclic and n-c many. "
                      "distinct_nontrivial = distinct (graph, insertion order) with at least one edge",
                 quick=[("G(0..6)", [["--n", n] for n in range(0, 7)]), ("G(0..4) x all edge insertion orders", [["--n", n, "--edge-orders"] for n in range(0, 5)]),
